@@ -30,7 +30,7 @@ F2(n1, f1, n2, f2) == [x \in {n1, n2} |-> IF x = n1 THEN f1 ELSE f2]
 (* what a service may say about the candidate type T *)
 TChoices == IF Rich
             THEN {"absent", "node", "node-f", "node-fInt", "node-g", "plain-f", "plain-fInt", "plain-fArg", "plain-fg", "plain-g"}
-            ELSE {"absent", "node-f", "node-g", "plain-f", "plain-fg", "plain-g"}
+            ELSE {"absent", "node-f", "node-g", "plain-f", "plain-fg", "plain-g", "plain-h"}
 TType(c) == CASE c = "node"       -> Obj(TRUE, NoFields)
               [] c = "node-f"     -> Obj(TRUE, F1("f", Fld("String")))
               [] c = "node-fInt"  -> Obj(TRUE, F1("f", Fld("Int")))
@@ -40,11 +40,15 @@ TType(c) == CASE c = "node"       -> Obj(TRUE, NoFields)
               [] c = "plain-fArg" -> Obj(FALSE, F1("f", FldA("String", "Int = 1")))
               [] c = "plain-fg"   -> Obj(FALSE, F2("f", Fld("String"), "g", Fld("String")))
               [] c = "plain-g"    -> Obj(FALSE, F1("g", Fld("String")))
+              \* a third field: with three services, one declaration disjoint from two that overlap each other
+              [] c = "plain-h"    -> Obj(FALSE, F1("h", Fld("String")))
 
-EChoices == IF Rich THEN {"absent", "enum-A", "enum-AB", "object"} ELSE {"absent"}
+ScalarT == [kind |-> "SCALAR", node |-> FALSE, fields |-> [x \in {} |-> Fld("")], values |-> <<>>, members |-> <<>>, impl |-> <<>>]
+EChoices == IF Rich THEN {"absent", "enum-A", "enum-AB", "object", "scalar"} ELSE {"absent"}
 EType(c) == CASE c = "enum-A"  -> EnumT(<<"A">>)
               [] c = "enum-AB" -> EnumT(<<"A", "B">>)
               [] c = "object"  -> Obj(FALSE, F1("x", Fld("Int")))
+              [] c = "scalar"  -> ScalarT     \* one name as a custom scalar here and as an enum / object there
 
 UChoices == IF Rich THEN {"absent", "union-T", "union-TV"} ELSE {"absent"}
 
